@@ -485,8 +485,9 @@ def patch_aes() -> None:
     _AES_PATCHED = True
 
 
-def encrypt_pdf(data: bytes, *, user_password: str, owner_password: str | None = None, algorithm: str = "RC4-128") -> bytes:
-    """Re-write ``data`` through pypdf with the standard security handler."""
+def encrypt_pdf(data: bytes, *, user_password: str, owner_password: str | None = None, algorithm: str = "RC4-128", strings_only: bool = False) -> bytes:
+    """Re-write ``data`` through pypdf with the standard security handler.
+    strings_only (V4 algorithms): split crypt filters - /StmF /Identity (streams stay in clear), /StrF /StdCF (strings are encrypted)."""
     if algorithm not in ALGORITHMS:
         raise ValueError("unknown algorithm %r" % algorithm)
     import pypdf
@@ -494,7 +495,15 @@ def encrypt_pdf(data: bytes, *, user_password: str, owner_password: str | None =
     if algorithm.startswith("AES"):
         patch_aes()
     writer = pypdf.PdfWriter(clone_from=pypdf.PdfReader(io.BytesIO(bytes(data))))
+    if strings_only:
+        from pypdf.generic import NameObject, TextStringObject
+        writer._root_object[NameObject("/Lang")] = TextStringObject("en-US")      # a string every reader meets: the catalog's natural-language entry
     writer.encrypt(user_password, owner_password, algorithm=algorithm)
+    if strings_only:
+        cfm = writer._encryption.StmF                      # "/AESV2" or "/V2"
+        writer._encryption.StmF = "/Identity"              # what encrypt_object uses for streams from now on
+        writer._encrypt_entry[NameObject("/StmF")] = NameObject("/Identity")
+        writer._encrypt_entry["/CF"]["/StdCF"][NameObject("/CFM")] = NameObject(cfm)
     buf = io.BytesIO()
     writer.write(buf)
     return buf.getvalue()
